@@ -129,6 +129,8 @@ pub struct Ops {
     pub sys_run: for<'w> fn(&'w World, &[ResourceId]) -> Vec<u8>,
     /// `RunNow::setup` of the per-case system
     pub sys_setup: fn(&mut World),
+    /// `World::exec(|data: T| ..)` (setup, then fetch)
+    pub exec: fn(&mut World),
 }
 
 pub fn decl_of<'a, T: SystemData<'a>>() -> Decl {
@@ -158,6 +160,12 @@ pub fn setup_of<'a, T: SystemData<'a>>(w: &mut World, via: u8) {
             <T as DynamicSystemData<'a>>::setup(&acc, w)
         }
     }
+}
+
+pub fn exec_of<'a, T: SystemData<'a>>(w: &'a mut World) {
+    // `exec` keeps the world mutably borrowed for 'a, so nothing can be probed while the data is
+    // alive; observed: panic or not, Default::default() calls, world and cells afterwards
+    w.exec(|d: T| drop(d))
 }
 
 /// State of the per-case probing system.
@@ -220,6 +228,9 @@ macro_rules! zoo_case {
                 let mut s = Sys($crate::zoo::SysProbe::idle());
                 shred::RunNow::setup(&mut s, w);
             }
+            fn exec<$lt>(w: &$lt mut shred::World) {
+                $crate::zoo::exec_of::<$t>(w)
+            }
             pub static OPS: $crate::zoo::Ops = $crate::zoo::Ops {
                 id: $id,
                 decl,
@@ -228,6 +239,7 @@ macro_rules! zoo_case {
                 acc,
                 sys_run,
                 sys_setup,
+                exec,
             };
         }
     };
@@ -312,6 +324,7 @@ pub struct Stats {
     pub events: usize,
     pub fetch_runs: usize,
     pub setup_runs: usize,
+    pub exec_runs: usize,
     pub fetch_ok: usize,
     pub fetch_missing: usize,
     pub fetch_borrow: usize,
@@ -597,6 +610,43 @@ pub fn run_case(ops: &Ops, d: &CaseDesc, rng: &mut StdRng, ev: &mut Vec<Value>, 
         }
         ev.push(e);
     }
+    // ---- World::exec: setup followed by a fetch on the same world
+    for k in 0..2usize.min(d.extra) {
+        let present = random_presence(d.nres, rng, if k == 0 { 1 } else { 3 });
+        let w0: Vec<u32> = present.iter().map(|p| if *p { rng.gen_range(1..DEFAULT_BASE) } else { 0 }).collect();
+        let mut w = mk_world(&slots, &w0);
+        take_default_log();
+        let r = catch_unwind(AssertUnwindSafe(|| (ops.exec)(&mut w)));
+        let log = take_default_log();
+        let created: Vec<u32> = log
+            .iter()
+            .map(|c| slots.iter().position(|s| s.has_default && s.idx == *c).map(|p| p as u32 + 1).unwrap_or(0))
+            .collect();
+        let after = classify(&w, &ids);
+        let w1 = snapshot(&slots, &w);
+        let (out, pres) = match r {
+            Ok(()) => ("ok", 0),
+            Err(p) => classify_panic(&slots, &panic_text(p)),
+        };
+        st.exec_runs += 1;
+        ev.push(json!({"ev":"exec","w0":w0,"out":out,"pres":pres,"created":created,"after":after,"w1":w1}));
+    }
     st.cases += 1;
     st.events += ev.len() - n0;
+}
+
+/// One event per line; `reset` lines start with `{"ev":"reset"` (block splitting looks at the line start).
+pub fn write_zoo_events<W: std::io::Write>(w: &mut W, evs: &[Value]) {
+    for e in evs {
+        if e["ev"] == "reset" {
+            let mut m = e.as_object().cloned().unwrap_or_default();
+            m.remove("ev");
+            let rest = serde_json::to_string(&Value::Object(m)).unwrap();
+            w.write_all(b"{\"ev\":\"reset\",").unwrap();
+            w.write_all(rest[1..].as_bytes()).unwrap();
+        } else {
+            serde_json::to_writer(&mut *w, e).unwrap();
+        }
+        w.write_all(b"\n").unwrap();
+    }
 }
